@@ -78,6 +78,8 @@ import LLFreeV.Proofs.LowerQuery
 import LLFreeV.Proofs.ConcUpperThreads
 import LLFreeV.Proofs.ConcChange
 import LLFreeV.Proofs.GenTree
+import LLFreeV.Proofs.GenLocal
+import LLFreeV.Proofs.GenHuge
 namespace LLFree.C04
 open LLFree Prog
 
